@@ -13,7 +13,7 @@
 From Coq Require Import List ZArith NArith Bool Reals Lra.
 From T4V Require Import Base.Scalar C03.Vec C03.Model C03.Convert C03.Spec C03.SpecT4
   C03.ProofsPlanes C03.ProofsQuad C03.ProofsArb C03.ProofsExpand C03.ProofsFacet
-  C03.ProofsConvert C03.ProofsWritten C03.Proofs.
+  C03.ProofsConvert C03.ProofsWritten C03.Proofs C03.ProofsExpandT4 C03.LinkC04 C03.LinkedWritten.
 Import ListNotations.
 Open Scope R_scope.
 
@@ -23,7 +23,6 @@ Theorem C03_box_facet_k : forall v a1 a2 a3 : pt,
   exists es, box RS (pl v ++ pl a1 ++ pl a2 ++ pl a3) = Ok es /\
              Forall2 same_facet es (box_facets v a1 a2 a3).
 Proof. exact box_facets_ok. Qed.
-Print Assumptions C03_box_facet_k.
 
 Theorem C03_box_inside : forall v a1 a2 a3 : pt,
   dot a1 a2 = 0 /\ dot a1 a3 = 0 /\ dot a2 a3 = 0 /\ det a1 a2 a3 <> 0 ->
@@ -31,7 +30,6 @@ Theorem C03_box_inside : forall v a1 a2 a3 : pt,
     (box_inside v a1 a2 a3 p <-> all_negative es p) /\
     (outside_of (box_facets v a1 a2 a3) p <-> some_positive es p).
 Proof. exact box_inside_ok. Qed.
-Print Assumptions C03_box_inside.
 
 (* the remark in the source ("capable of handling generic parallelepipeds"):
    with only det <> 0 the six entries bound exactly v + s a1 + t a2 + u a3,
@@ -41,34 +39,29 @@ Theorem C03_box_general_inside : forall v a1 a2 a3 : pt,
   forall es, box RS (pl v ++ pl a1 ++ pl a2 ++ pl a3) = Ok es ->
   forall p, box_inside v a1 a2 a3 p <-> all_negative es p.
 Proof. exact box_general_inside. Qed.
-Print Assumptions C03_box_general_inside.
 
 (* ---------------- RPP ---------------- *)
 Theorem C03_rpp_facet_k : forall x0 x1 y0 y1 z0 z1 : R,
   exists es, rpp RS [x0; x1; y0; y1; z0; z1] = Ok es /\
              Forall2 same_facet es (rpp_facets x0 x1 y0 y1 z0 z1).
 Proof. exact rpp_facets_ok. Qed.
-Print Assumptions C03_rpp_facet_k.
 
 Theorem C03_rpp_inside : forall x0 x1 y0 y1 z0 z1 : R,
   forall es, rpp RS [x0; x1; y0; y1; z0; z1] = Ok es -> forall p,
     (rpp_inside x0 x1 y0 y1 z0 z1 p <-> all_negative es p) /\
     (outside_of (rpp_facets x0 x1 y0 y1 z0 z1) p <-> some_positive es p).
 Proof. exact rpp_inside_ok. Qed.
-Print Assumptions C03_rpp_inside.
 
 (* ---------------- SPH ---------------- *)
 Theorem C03_sph_facet_k : forall (c : pt) (r : R),
   exists es, sph (pl c ++ [r]) = Ok es /\ Forall2 same_facet es (sph_facets c r).
 Proof. exact sph_facets_ok. Qed.
-Print Assumptions C03_sph_facet_k.
 
 Theorem C03_sph_inside : forall (c : pt) (r : R),
   forall es, sph (pl c ++ [r]) = Ok es -> forall p,
     (sph_inside c r p <-> all_negative es p) /\
     (outside_of (sph_facets c r) p <-> some_positive es p).
 Proof. exact sph_inside_ok. Qed.
-Print Assumptions C03_sph_inside.
 
 (* ---------------- RCC ---------------- *)
 Theorem C03_rcc_facet_k : forall (v h : pt) (r : R),
@@ -76,7 +69,6 @@ Theorem C03_rcc_facet_k : forall (v h : pt) (r : R),
   exists es, rcc RS (pl v ++ pl h ++ [r]) = Ok es /\
              Forall2 same_facet es (rcc_facets v h r).
 Proof. exact rcc_facets_ok. Qed.
-Print Assumptions C03_rcc_facet_k.
 
 Theorem C03_rcc_inside : forall (v h : pt) (r : R),
   h <> (0, 0, 0) ->
@@ -84,7 +76,6 @@ Theorem C03_rcc_inside : forall (v h : pt) (r : R),
     (rcc_inside v h r p <-> all_negative es p) /\
     (outside_of (rcc_facets v h r) p <-> some_positive es p).
 Proof. exact rcc_inside_ok. Qed.
-Print Assumptions C03_rcc_inside.
 
 (* ---------------- RHP / HEX ---------------- *)
 (* fifteen entries: no condition at all is needed for the facets *)
@@ -92,14 +83,12 @@ Theorem C03_rhp15_facet_k : forall v h r s t : pt,
   exists es, rhp RS (pl v ++ pl h ++ pl r ++ pl s ++ pl t) = Ok es /\
              Forall2 same_facet es (rhp_facets v h r s t).
 Proof. exact rhp15_facets_ok. Qed.
-Print Assumptions C03_rhp15_facet_k.
 
 Theorem C03_rhp15_inside : forall v h r s t : pt,
   forall es, rhp RS (pl v ++ pl h ++ pl r ++ pl s ++ pl t) = Ok es -> forall p,
     (inside_of (rhp_facets v h r s t) p <-> all_negative es p) /\
     (outside_of (rhp_facets v h r s t) p <-> some_positive es p).
 Proof. exact rhp15_inside_ok. Qed.
-Print Assumptions C03_rhp15_inside.
 
 (* nine entries: the facet vector normal to the axis, s and t are r turned by
    60 and 120 degrees about h (cos = 1/2, -1/2, sin = sqrt 3 / 2) *)
@@ -108,7 +97,6 @@ Theorem C03_rhp9_facet_k : forall v h r : pt,
   exists es, rhp RS (pl v ++ pl h ++ pl r) = Ok es /\
              Forall2 same_facet es (rhp_regular_facets v h r).
 Proof. exact rhp9_facets_ok. Qed.
-Print Assumptions C03_rhp9_facet_k.
 
 Theorem C03_rhp9_inside : forall v h r : pt,
   h <> (0, 0, 0) -> dot r h = 0 ->
@@ -116,7 +104,6 @@ Theorem C03_rhp9_inside : forall v h r : pt,
     (inside_of (rhp_regular_facets v h r) p <-> all_negative es p) /\
     (outside_of (rhp_regular_facets v h r) p <-> some_positive es p).
 Proof. exact rhp9_inside_ok. Qed.
-Print Assumptions C03_rhp9_inside.
 
 (* the turned vectors of the Spec really make a regular hexagon *)
 Theorem C03_rhp9_regular : forall (h r : pt) (c s : R),
@@ -124,12 +111,10 @@ Theorem C03_rhp9_regular : forall (h r : pt) (c s : R),
   norm2 (turn h r c s) = norm2 r /\ dot (turn h r c s) h = 0 /\
   dot (turn h r c s) r = c * norm2 r.
 Proof. exact turn_regular. Qed.
-Print Assumptions C03_rhp9_regular.
 
 Theorem C03_hex_is_rhp : forall (p : list R) (d : list N),
   body_parts RS HEX p d = body_parts RS RHP p d.
 Proof. exact dispatch_hex. Qed.
-Print Assumptions C03_hex_is_rhp.
 
 (* ---------------- REC ---------------- *)
 Theorem C03_rec12_facet_k : forall v h a1 a2 : pt,
@@ -137,7 +122,6 @@ Theorem C03_rec12_facet_k : forall v h a1 a2 : pt,
   exists es, rec RS (pl v ++ pl h ++ pl a1 ++ pl a2) = Ok es /\
              Forall2 same_facet es (rec_facets v h a1 a2).
 Proof. exact rec12_facets_ok. Qed.
-Print Assumptions C03_rec12_facet_k.
 
 Theorem C03_rec12_inside : forall v h a1 a2 : pt,
   h <> (0, 0, 0) -> a1 <> (0, 0, 0) -> a2 <> (0, 0, 0) ->
@@ -145,14 +129,12 @@ Theorem C03_rec12_inside : forall v h a1 a2 : pt,
     (inside_of (rec_facets v h a1 a2) p <-> all_negative es p) /\
     (outside_of (rec_facets v h a1 a2) p <-> some_positive es p).
 Proof. exact rec12_inside_ok. Qed.
-Print Assumptions C03_rec12_inside.
 
 Theorem C03_rec10_facet_k : forall (v h a1 : pt) (b : R),
   cross h a1 <> (0, 0, 0) -> b <> 0 ->
   exists es, rec RS (pl v ++ pl h ++ pl a1 ++ [b]) = Ok es /\
              Forall2 same_facet es (rec_facets v h a1 (rec10_minor h a1 b)).
 Proof. exact rec10_facets_ok. Qed.
-Print Assumptions C03_rec10_facet_k.
 
 Theorem C03_rec10_inside : forall (v h a1 : pt) (b : R),
   cross h a1 <> (0, 0, 0) -> b <> 0 ->
@@ -160,7 +142,6 @@ Theorem C03_rec10_inside : forall (v h a1 : pt) (b : R),
     (inside_of (rec_facets v h a1 (rec10_minor h a1 b)) p <-> all_negative es p) /\
     (outside_of (rec_facets v h a1 (rec10_minor h a1 b)) p <-> some_positive es p).
 Proof. exact rec10_inside_ok. Qed.
-Print Assumptions C03_rec10_inside.
 
 (* right elliptical cylinders against the solid described without facets:
    v + t h + x a1 + y a2, 0 < t < 1, x^2 + y^2 < 1 *)
@@ -170,14 +151,12 @@ Theorem C03_rec12_solid : forall v h a1 a2 : pt,
   forall es, rec RS (pl v ++ pl h ++ pl a1 ++ pl a2) = Ok es -> forall p,
     rec_inside v h a1 a2 p <-> all_negative es p.
 Proof. exact rec12_solid_ok. Qed.
-Print Assumptions C03_rec12_solid.
 
 Theorem C03_rec10_solid : forall (v h a1 : pt) (b : R),
   dot h a1 = 0 -> cross h a1 <> (0, 0, 0) -> b <> 0 ->
   forall es, rec RS (pl v ++ pl h ++ pl a1 ++ [b]) = Ok es -> forall p,
     rec_inside v h a1 (rec10_minor h a1 b) p <-> all_negative es p.
 Proof. exact rec10_solid_ok. Qed.
-Print Assumptions C03_rec10_solid.
 
 (* ---------------- TRC ---------------- *)
 Theorem C03_trc_facet_k : forall (v h : pt) (r0 r1 : R),
@@ -185,7 +164,6 @@ Theorem C03_trc_facet_k : forall (v h : pt) (r0 r1 : R),
   exists es, trc RS (pl v ++ pl h ++ [r0; r1]) = Ok es /\
              Forall2 same_facet es (trc_facets v h r0 r1).
 Proof. exact trc_facets_ok. Qed.
-Print Assumptions C03_trc_facet_k.
 
 Theorem C03_trc_inside : forall (v h : pt) (r0 r1 : R),
   h <> (0, 0, 0) -> r0 <> r1 ->
@@ -193,7 +171,6 @@ Theorem C03_trc_inside : forall (v h : pt) (r0 r1 : R),
     (inside_of (trc_facets v h r0 r1) p <-> all_negative es p) /\
     (outside_of (trc_facets v h r0 r1) p <-> some_positive es p).
 Proof. exact trc_inside_ok. Qed.
-Print Assumptions C03_trc_inside.
 
 (* the frustum described without facets: v + t h + w, 0 < t < 1, w normal to
    h, |w| below the radius that goes linearly from r0 to r1 *)
@@ -202,7 +179,6 @@ Theorem C03_trc_solid : forall (v h : pt) (r0 r1 : R),
   forall es, trc RS (pl v ++ pl h ++ [r0; r1]) = Ok es -> forall p,
     trc_inside v h r0 r1 p <-> all_negative es p.
 Proof. exact trc_solid_ok. Qed.
-Print Assumptions C03_trc_solid.
 
 (* ---------------- ELL ---------------- *)
 Theorem C03_ell_axis_facet_k : forall (c a : pt) (mb : R),
@@ -210,7 +186,6 @@ Theorem C03_ell_axis_facet_k : forall (c a : pt) (mb : R),
   exists es, ell RS (pl c ++ pl a ++ [mb]) = Ok es /\
              Forall2 same_facet es (ell_axis_facets c a mb).
 Proof. exact ell_axis_facets_ok. Qed.
-Print Assumptions C03_ell_axis_facet_k.
 
 Theorem C03_ell_axis_inside : forall (c a : pt) (mb : R),
   a <> (0, 0, 0) -> mb < 0 ->
@@ -218,7 +193,6 @@ Theorem C03_ell_axis_inside : forall (c a : pt) (mb : R),
     (inside_of (ell_axis_facets c a mb) p <-> all_negative es p) /\
     (outside_of (ell_axis_facets c a mb) p <-> some_positive es p).
 Proof. exact ell_axis_inside_ok. Qed.
-Print Assumptions C03_ell_axis_inside.
 
 (* positive last entry: the Spec is "as MCNP behaves, per the source comment"
    (DESIGN 5.4, trusted base) *)
@@ -228,7 +202,6 @@ Theorem C03_ell_foci_facet_k : forall (f1 f2 : pt) (L : R),
   exists es, ell RS (pl f1 ++ pl f2 ++ [L]) = Ok es /\
              Forall2 same_facet es (ell_foci_facets f1 f2 L).
 Proof. exact ell_foci_facet_ok. Qed.
-Print Assumptions C03_ell_foci_facet_k.
 
 Theorem C03_ell_foci_inside : forall (f1 f2 : pt) (L : R),
   0 < L -> vsub f1 (vmul (1 / 2) (vadd f1 f2)) <> (0, 0, 0) ->
@@ -237,7 +210,6 @@ Theorem C03_ell_foci_inside : forall (f1 f2 : pt) (L : R),
     (inside_of (ell_foci_facets f1 f2 L) p <-> all_negative es p) /\
     (outside_of (ell_foci_facets f1 f2 L) p <-> some_positive es p).
 Proof. exact ell_foci_inside_ok. Qed.
-Print Assumptions C03_ell_foci_inside.
 
 (* ---------------- WED (right wedge, either handedness) ---------------- *)
 Theorem C03_wed_facet_k : forall v a b h : pt,
@@ -245,7 +217,6 @@ Theorem C03_wed_facet_k : forall v a b h : pt,
   exists es, wed RS (pl v ++ pl a ++ pl b ++ pl h) = Ok es /\
              Forall2 same_facet es (wed_facets v a b h).
 Proof. exact wed_facets_ok. Qed.
-Print Assumptions C03_wed_facet_k.
 
 Theorem C03_wed_inside : forall v a b h : pt,
   dot a b = 0 /\ dot a h = 0 /\ dot b h = 0 /\ det a b h <> 0 ->
@@ -253,7 +224,6 @@ Theorem C03_wed_inside : forall v a b h : pt,
     (wed_inside v a b h p <-> all_negative es p) /\
     (outside_of (wed_facets v a b h) p <-> some_positive es p).
 Proof. exact wed_inside_ok. Qed.
-Print Assumptions C03_wed_inside.
 
 (* ---------------- ARB ---------------- *)
 Theorem C03_arb_facet_k : forall (V : list pt) (descr : list N),
@@ -265,7 +235,6 @@ Theorem C03_arb_facet_k : forall (V : list pt) (descr : list N),
   exists es, arb RS (flat V) descr = Ok es /\
     Forall2 same_facet es (arb_facets (firstn (arb_nvert descr) V) (arb_facet_lists descr)).
 Proof. exact arb_facet_ok. Qed.
-Print Assumptions C03_arb_facet_k.
 
 Theorem C03_arb_inside : forall (V : list pt) (descr : list N),
   List.length V = 8%nat -> List.length descr = 6%nat ->
@@ -279,7 +248,6 @@ Theorem C03_arb_inside : forall (V : list pt) (descr : list N),
     (outside_of (arb_facets (firstn (arb_nvert descr) V) (arb_facet_lists descr)) p
      <-> some_positive es p).
 Proof. exact arb_inside_ok. Qed.
-Print Assumptions C03_arb_inside.
 
 (* the centroid is strictly inside every admissible facet's half-space: the
    ARB Spec ("outward = away from the centroid") is not vacuous *)
@@ -287,7 +255,6 @@ Theorem C03_arb_centroid_inside : forall (vs : list pt) (facets : list (list nat
   Forall (facet_admissible vs (centroid_of vs)) facets ->
   inside_of (arb_facets vs facets) (centroid_of vs).
 Proof. exact arb_centroid_inside. Qed.
-Print Assumptions C03_arb_centroid_inside.
 
 (* parse_facet: the descriptor written with decimal digits ds (any length,
    zeros anywhere) gives the non-zero digits minus one, in order *)
@@ -295,7 +262,6 @@ Theorem C03_parse_facet_digits : forall ds : list N,
   Forall (fun d => (d < 10)%N) ds ->
   parse_facet (of_digits ds) = vertex_numbers ds.
 Proof. exact parse_facet_digits. Qed.
-Print Assumptions C03_parse_facet_digits.
 
 (* ---------------- error branches ---------------- *)
 (* check_params_length: any other number of entries is a MacroBodyError *)
@@ -303,24 +269,20 @@ Theorem C03_wrong_count_rejected : forall (b : body) (p : list R) (d : list N),
   ~ In (List.length p) (expected_lengths b) ->
   body_parts RS b p d = Err EMacroBody.
 Proof. exact wrong_count_rejected. Qed.
-Print Assumptions C03_wrong_count_rejected.
 
 Theorem C03_arb_wrong_descriptor_count : forall (p : list R) (d : list N),
   List.length d <> 6%nat -> arb RS p d = Err EMacroBody.
 Proof. exact arb_wrong_descriptor_count. Qed.
-Print Assumptions C03_arb_wrong_descriptor_count.
 
 (* TRC with equal radii (MCNP forbids it): ZeroDivisionError, no output *)
 Theorem C03_trc_equal_radii_error : forall (v h : pt) (r : R),
   trc RS (pl v ++ pl h ++ [r; r]) = Err EZeroDiv.
 Proof. exact trc_equal_radii_error. Qed.
-Print Assumptions C03_trc_equal_radii_error.
 
 (* ---------------- sides, numbering, references in a cell ---------------- *)
 Theorem C03_sides_pm1 : forall b p d es,
   body_parts RS b p d = Ok es -> Forall (fun e => snd e = 1%Z \/ snd e = (-1)%Z) es.
 Proof. exact body_sides_ok. Qed.
-Print Assumptions C03_sides_pm1.
 
 (* number_items: first facet keeps the body's number, the others take the
    consecutive free numbers, each id carries the facet's side as its sign *)
@@ -329,7 +291,6 @@ Theorem C03_number_one : forall (key free s : Z) (sides : list Z),
   map (fun '(s, n) => (s * n)%Z)
       (combine (s :: sides) (key :: zseq free (List.length sides))).
 Proof. exact number_one_ids. Qed.
-Print Assumptions C03_number_one.
 
 (* over the whole dictionary of surfaces: no two facets (of the same or of
    different bodies) share a TRIPOLI-4 id *)
@@ -339,7 +300,6 @@ Theorem C03_number_items_distinct : forall dic : list (Z * list Z),
   NoDup (map fst dic) ->
   NoDup (map Z.abs (concat (map snd (number_items dic)))).
 Proof. exact number_items_distinct. Qed.
-Print Assumptions C03_number_items_distinct.
 
 (* pot_expand_surfs on the numbered facets of a body: -b is the solid, +b its
    complement, b.k the k-th facet with the outward side positive, k beyond the
@@ -357,7 +317,6 @@ Theorem C03_expand_macro_den : forall (es : list rentry) (fs : list (pt -> R)) (
   (forall k, (List.length fs < k)%nat ->
      expand new_key n (Some k) (ids_of es ns) = Err ECellConv).
 Proof. exact reference_semantics. Qed.
-Print Assumptions C03_expand_macro_den.
 
 (* the quirk noted in DESIGN 8: facet number 0 passes the range test and
    Python's index -1 selects the LAST facet *)
@@ -365,7 +324,6 @@ Theorem C03_expand_facet_zero_is_last : forall (ids : list Z) (new_key n last : 
   expand new_key n (Some O) (ids ++ [last]) =
   Ok (Leaf (if (0 <? n)%Z then last else (- last)%Z), new_key).
 Proof. exact expand_facet_zero_is_last. Qed.
-Print Assumptions C03_expand_facet_zero_is_last.
 
 (* ================================================================== *)
 (* What is WRITTEN.  body_t4 = the body function followed, for every     *)
@@ -385,7 +343,6 @@ Theorem C03_convert_entry_sound : forall (tr : option rtransf) (e : rentry),
   exists t prm c, 0 < c /\ convert_entry RS tr e = Ok [(t, prm, snd e)] /\
     forall p, t4_value t prm p = c * eval_surf (fst (fst e)) (snd (fst e)) (frame_of tr p).
 Proof. exact convert_entry_sound. Qed.
-Print Assumptions C03_convert_entry_sound.
 
 (* -b and +b over the written surfaces *)
 Theorem C03_written_inside : forall g (ts : list rt4e) (fs : list (pt -> R)) (p : pt),
@@ -393,77 +350,66 @@ Theorem C03_written_inside : forall g (ts : list rt4e) (fs : list (pt -> R)) (p 
   (t4_all_negative ts p <-> inside_of fs (g p)) /\
   (t4_some_positive ts p <-> outside_of fs (g p)).
 Proof. exact t4_facets_inside. Qed.
-Print Assumptions C03_written_inside.
 
 Theorem C03_box_written : forall (tr : option rtransf) (v a1 a2 a3 : pt),
   tr_ok tr -> box_admissible a1 a2 a3 ->
   exists ts, body_t4 RS tr BOX (pl v ++ pl a1 ++ pl a2 ++ pl a3) [] = Ok ts /\
     Forall2 (same_t4_facet (frame_of tr)) ts (box_facets v a1 a2 a3).
 Proof. exact box_written. Qed.
-Print Assumptions C03_box_written.
 
 Theorem C03_rpp_written : forall (tr : option rtransf) (x0 x1 y0 y1 z0 z1 : R),
   tr_ok tr ->
   exists ts, body_t4 RS tr RPP [x0; x1; y0; y1; z0; z1] [] = Ok ts /\
     Forall2 (same_t4_facet (frame_of tr)) ts (rpp_facets x0 x1 y0 y1 z0 z1).
 Proof. exact rpp_written. Qed.
-Print Assumptions C03_rpp_written.
 
 Theorem C03_sph_written : forall (tr : option rtransf) (c : pt) (r : R),
   tr_ok tr ->
   exists ts, body_t4 RS tr SPH (pl c ++ [r]) [] = Ok ts /\
     Forall2 (same_t4_facet (frame_of tr)) ts (sph_facets c r).
 Proof. exact sph_written. Qed.
-Print Assumptions C03_sph_written.
 
 Theorem C03_rcc_written : forall (tr : option rtransf) (v h : pt) (r : R),
   tr_ok tr -> h <> (0, 0, 0) ->
   exists ts, body_t4 RS tr RCC (pl v ++ pl h ++ [r]) [] = Ok ts /\
     Forall2 (same_t4_facet (frame_of tr)) ts (rcc_facets v h r).
 Proof. exact rcc_written. Qed.
-Print Assumptions C03_rcc_written.
 
 Theorem C03_rhp15_written : forall (tr : option rtransf) (v h r s t : pt),
   tr_ok tr -> h <> (0, 0, 0) -> r <> (0, 0, 0) -> s <> (0, 0, 0) -> t <> (0, 0, 0) ->
   exists ts, body_t4 RS tr RHP (pl v ++ pl h ++ pl r ++ pl s ++ pl t) [] = Ok ts /\
     Forall2 (same_t4_facet (frame_of tr)) ts (rhp_facets v h r s t).
 Proof. exact rhp15_written. Qed.
-Print Assumptions C03_rhp15_written.
 
 Theorem C03_rhp9_written : forall (tr : option rtransf) (v h r : pt),
   tr_ok tr -> h <> (0, 0, 0) -> dot r h = 0 -> r <> (0, 0, 0) ->
   exists ts, body_t4 RS tr RHP (pl v ++ pl h ++ pl r) [] = Ok ts /\
     Forall2 (same_t4_facet (frame_of tr)) ts (rhp_regular_facets v h r).
 Proof. exact rhp9_written. Qed.
-Print Assumptions C03_rhp9_written.
 
 Theorem C03_rec12_written : forall (tr : option rtransf) (v h a1 a2 : pt),
   tr_ok tr -> h <> (0, 0, 0) -> a1 <> (0, 0, 0) -> a2 <> (0, 0, 0) ->
   exists ts, body_t4 RS tr REC (pl v ++ pl h ++ pl a1 ++ pl a2) [] = Ok ts /\
     Forall2 (same_t4_facet (frame_of tr)) ts (rec_facets v h a1 a2).
 Proof. exact rec12_written. Qed.
-Print Assumptions C03_rec12_written.
 
 Theorem C03_rec10_written : forall (tr : option rtransf) (v h a1 : pt) (b : R),
   tr_ok tr -> cross h a1 <> (0, 0, 0) -> b <> 0 ->
   exists ts, body_t4 RS tr REC (pl v ++ pl h ++ pl a1 ++ [b]) [] = Ok ts /\
     Forall2 (same_t4_facet (frame_of tr)) ts (rec_facets v h a1 (rec10_minor h a1 b)).
 Proof. exact rec10_written. Qed.
-Print Assumptions C03_rec10_written.
 
 Theorem C03_trc_written : forall (tr : option rtransf) (v h : pt) (r0 r1 : R),
   tr_ok tr -> h <> (0, 0, 0) -> r0 <> r1 ->
   exists ts, body_t4 RS tr TRC (pl v ++ pl h ++ [r0; r1]) [] = Ok ts /\
     Forall2 (same_t4_facet (frame_of tr)) ts (trc_facets v h r0 r1).
 Proof. exact trc_written. Qed.
-Print Assumptions C03_trc_written.
 
 Theorem C03_ell_axis_written : forall (tr : option rtransf) (c a : pt) (mb : R),
   tr_ok tr -> a <> (0, 0, 0) -> mb < 0 ->
   exists ts, body_t4 RS tr ELL (pl c ++ pl a ++ [mb]) [] = Ok ts /\
     Forall2 (same_t4_facet (frame_of tr)) ts (ell_axis_facets c a mb).
 Proof. exact ell_axis_written. Qed.
-Print Assumptions C03_ell_axis_written.
 
 Theorem C03_ell_foci_written : forall (tr : option rtransf) (f1 f2 : pt) (L : R),
   tr_ok tr -> 0 < L -> vsub f1 (vmul (1 / 2) (vadd f1 f2)) <> (0, 0, 0) ->
@@ -471,14 +417,12 @@ Theorem C03_ell_foci_written : forall (tr : option rtransf) (f1 f2 : pt) (L : R)
   exists ts, body_t4 RS tr ELL (pl f1 ++ pl f2 ++ [L]) [] = Ok ts /\
     Forall2 (same_t4_facet (frame_of tr)) ts (ell_foci_facets f1 f2 L).
 Proof. exact ell_foci_written. Qed.
-Print Assumptions C03_ell_foci_written.
 
 Theorem C03_wed_written : forall (tr : option rtransf) (v a b h : pt),
   tr_ok tr -> wed_admissible a b h ->
   exists ts, body_t4 RS tr WED (pl v ++ pl a ++ pl b ++ pl h) [] = Ok ts /\
     Forall2 (same_t4_facet (frame_of tr)) ts (wed_facets v a b h).
 Proof. exact wed_written. Qed.
-Print Assumptions C03_wed_written.
 
 Theorem C03_arb_written : forall (tr : option rtransf) (V : list pt) (descr : list N),
   tr_ok tr -> List.length V = 8%nat -> List.length descr = 6%nat ->
@@ -489,7 +433,6 @@ Theorem C03_arb_written : forall (tr : option rtransf) (V : list pt) (descr : li
   exists ts, body_t4 RS tr ARB (flat V) descr = Ok ts /\
     Forall2 (same_t4_facet (frame_of tr)) ts (arb_facets (firstn (arb_nvert descr) V) (arb_facet_lists descr)).
 Proof. exact arb_written. Qed.
-Print Assumptions C03_arb_written.
 
 (* end to end: the MINUS side of all written surfaces of a BOX / WED (sides
    taken into account) is the solid described without facets, moved *)
@@ -498,14 +441,12 @@ Theorem C03_box_written_solid : forall (tr : option rtransf) (v a1 a2 a3 : pt),
   forall ts, body_t4 RS tr BOX (pl v ++ pl a1 ++ pl a2 ++ pl a3) [] = Ok ts ->
   forall p, t4_all_negative ts p <-> box_inside v a1 a2 a3 (frame_of tr p).
 Proof. exact box_written_solid. Qed.
-Print Assumptions C03_box_written_solid.
 
 Theorem C03_wed_written_solid : forall (tr : option rtransf) (v a b h : pt),
   tr_ok tr -> wed_admissible a b h ->
   forall ts, body_t4 RS tr WED (pl v ++ pl a ++ pl b ++ pl h) [] = Ok ts ->
   forall p, t4_all_negative ts p <-> wed_inside v a b h (frame_of tr p).
 Proof. exact wed_written_solid. Qed.
-Print Assumptions C03_wed_written_solid.
 
 (* ---------------- BOX, any parallelepiped: facet numbering ---------------- *)
 (* only det <> 0: facet 2i-1 is the face at the END of a_i (coordinate s_i = 1
@@ -515,14 +456,12 @@ Theorem C03_box_general_facet_k : forall v a1 a2 a3 : pt,
   exists es, box RS (pl v ++ pl a1 ++ pl a2 ++ pl a3) = Ok es /\ Forall entry_wf es /\
              Forall2 same_facet es (para_facets v a1 a2 a3).
 Proof. exact box_general_facets_full. Qed.
-Print Assumptions C03_box_general_facet_k.
 
 Theorem C03_box_general_written : forall (tr : option rtransf) (v a1 a2 a3 : pt),
   tr_ok tr -> det a1 a2 a3 <> 0 ->
   exists ts, body_t4 RS tr BOX (pl v ++ pl a1 ++ pl a2 ++ pl a3) [] = Ok ts /\
     Forall2 (same_t4_facet (frame_of tr)) ts (para_facets v a1 a2 a3).
 Proof. exact box_general_written. Qed.
-Print Assumptions C03_box_general_written.
 
 (* for a right box these facets are those of the manual (BOX above) *)
 Theorem C03_para_facets_right : forall v a1 a2 a3 : pt,
@@ -530,7 +469,6 @@ Theorem C03_para_facets_right : forall v a1 a2 a3 : pt,
   Forall2 (fun f g : pt -> R => exists c, 0 < c /\ forall p, f p = c * g p)
           (para_facets v a1 a2 a3) (box_facets v a1 a2 a3).
 Proof. exact para_facets_right. Qed.
-Print Assumptions C03_para_facets_right.
 
 (* ---------------- pot_transform: references under TRCL / FILL -------------- *)
 (* a reference n.k (k = S j) in a cell moved by tr: the new collection holds
@@ -543,21 +481,146 @@ Theorem C03_pot_transform_facet : forall (tr : rtransf) (es : list rentry)
   exists t, pot_transform_ref RS tr es (Some (S k)) = Ok [t] /\
             same_t4_facet (to_aux tr) t f.
 Proof. exact pot_transform_facet. Qed.
-Print Assumptions C03_pot_transform_facet.
 
 Theorem C03_pot_transform_whole : forall (tr : rtransf) (es : list rentry) (fs : list (pt -> R)),
   orthogonal tr -> Forall entry_wf es -> Forall2 same_facet es fs ->
   exists ts, pot_transform_ref RS tr es None = Ok ts /\
              Forall2 (same_t4_facet (to_aux tr)) ts fs.
 Proof. exact pot_transform_whole. Qed.
-Print Assumptions C03_pot_transform_whole.
 
 (* n.0 and n.k beyond the last facet are an IndexError under a transformation
    (CollectionDict._get_item), unlike the untransformed n.0 above *)
 Theorem C03_pot_transform_out_of_range : forall (tr : rtransf) (es : list rentry) (k : nat),
   (k = 0 \/ List.length es < k)%nat -> pot_transform_ref RS tr es (Some k) = Err EIndex.
 Proof. exact pot_transform_out_of_range. Qed.
-Print Assumptions C03_pot_transform_out_of_range.
+
+(* ---------------- references in a cell, over the WRITTEN surfaces ---------- *)
+(* the whole property text in one statement: body function, conversion of every
+   facet to its TRIPOLI-4 surface (under the cell's / card's transformation),
+   numbering, pot_expand_surfs.  [fv n] = t4_value of the written surface n at
+   the point q; frame_of tr q = B (q - O) *)
+Theorem C03_expand_macro_den_written : forall (tr : option rtransf) (bd : body) (p : list R)
+    (d : list N) (fs : list (pt -> R)),
+  tr_ok tr -> fs <> [] ->
+  (exists es, body_parts RS bd p d = Ok es /\ Forall entry_wf es /\ Forall2 same_facet es fs) ->
+  forall ts, body_t4 RS tr bd p d = Ok ts ->
+  forall (ns : list Z) (fv : Z -> R) (q : pt) (new_key n : Z),
+  numbered_t4 fv q ts ns ->
+  ((n < 0)%Z -> exists t k, expand new_key n None (ids_of_t4 ts ns) = Ok (t, k) /\
+                            (den fv t <-> inside_of fs (frame_of tr q))) /\
+  ((0 < n)%Z -> exists t k, expand new_key n None (ids_of_t4 ts ns) = Ok (t, k) /\
+                            (den fv t <-> outside_of fs (frame_of tr q))) /\
+  (forall k f, nth_error fs k = Some f -> n <> 0%Z ->
+     exists t, expand new_key n (Some (S k)) (ids_of_t4 ts ns) = Ok (t, new_key) /\
+               (den fv t <-> if (0 <? n)%Z then 0 < f (frame_of tr q) else f (frame_of tr q) < 0)) /\
+  (forall k, (List.length fs < k)%nat ->
+     expand new_key n (Some k) (ids_of_t4 ts ns) = Err ECellConv).
+Proof. exact reference_written. Qed.
+
+(* ---------------- linked to C04: the transformation comes from a card ------- *)
+(* card_gives l o b (C03/LinkC04.v): l is what C04's model of the converter
+   (tr_card / parse_trcl / parse_fill_tr at RS) returns for a TR card with 12 or
+   13 entries (unstarred, or starred with angles in degrees), a TR card with 3
+   entries, or an inline TRCL / FILL transformation with 12 entries, whose
+   matrix b has orthonormal rows (and no entry in (0, 1e-10)).  By C04's
+   theorems (tr_card_12, tr_card_star_12, tr_card_3, inline_12, cols_orthonormal)
+   l is the card's twelve numbers and C03's tr_ok holds. *)
+Theorem C03_card_transformation_linked : forall (l : list R) (o : S4.R3) (b : V4.M3 R),
+  card_gives l o b ->
+  transf_of_list l = Some (transf_of_c04 o b) /\ orthogonal (transf_of_c04 o b).
+Proof. exact card_transformation. Qed.
+
+(* any body whose entries are MCNP's facets, written under the card's
+   transformation: the k-th written surface is the k-th facet in the auxiliary
+   frame as C04's Spec defines it (aux_c04 o b p = S4.to_aux o b p) *)
+Theorem C03_written_linked : forall (l : list R) (o : S4.R3) (b : V4.M3 R)
+    (bd : body) (p : list R) (d : list N) (fs : list (pt -> R)),
+  card_gives l o b ->
+  (exists es, body_parts RS bd p d = Ok es /\ Forall entry_wf es /\ Forall2 same_facet es fs) ->
+  exists ts, body_t4 RS (transf_of_list l) bd p d = Ok ts /\
+             Forall2 (same_t4_facet (aux_c04 o b)) ts fs.
+Proof. exact written_linked. Qed.
+
+(* C03_<body>_written_linked for every body, as one family *)
+Theorem C03_bodies_written_linked : forall (l : list R) (o : S4.R3) (b : V4.M3 R),
+  card_gives l o b ->
+  let W := fun bd p d fs =>
+    exists ts, body_t4 RS (transf_of_list l) bd p d = Ok ts /\
+               Forall2 (same_t4_facet (aux_c04 o b)) ts fs in
+  (forall v a1 a2 a3, box_admissible a1 a2 a3 ->
+     W BOX (pl v ++ pl a1 ++ pl a2 ++ pl a3) [] (box_facets v a1 a2 a3)) /\
+  (forall v a1 a2 a3, det a1 a2 a3 <> 0 ->
+     W BOX (pl v ++ pl a1 ++ pl a2 ++ pl a3) [] (para_facets v a1 a2 a3)) /\
+  (forall x0 x1 y0 y1 z0 z1,
+     W RPP [x0; x1; y0; y1; z0; z1] [] (rpp_facets x0 x1 y0 y1 z0 z1)) /\
+  (forall c r, W SPH (pl c ++ [r]) [] (sph_facets c r)) /\
+  (forall v h r, h <> (0, 0, 0) -> W RCC (pl v ++ pl h ++ [r]) [] (rcc_facets v h r)) /\
+  (forall v h r s t, h <> (0, 0, 0) -> r <> (0, 0, 0) -> s <> (0, 0, 0) -> t <> (0, 0, 0) ->
+     W RHP (pl v ++ pl h ++ pl r ++ pl s ++ pl t) [] (rhp_facets v h r s t)) /\
+  (forall v h r, h <> (0, 0, 0) -> dot r h = 0 -> r <> (0, 0, 0) ->
+     W RHP (pl v ++ pl h ++ pl r) [] (rhp_regular_facets v h r)) /\
+  (forall v h a1 a2, h <> (0, 0, 0) -> a1 <> (0, 0, 0) -> a2 <> (0, 0, 0) ->
+     W REC (pl v ++ pl h ++ pl a1 ++ pl a2) [] (rec_facets v h a1 a2)) /\
+  (forall v h a1 bb, cross h a1 <> (0, 0, 0) -> bb <> 0 ->
+     W REC (pl v ++ pl h ++ pl a1 ++ [bb]) [] (rec_facets v h a1 (rec10_minor h a1 bb))) /\
+  (forall v h r0 r1, h <> (0, 0, 0) -> r0 <> r1 ->
+     W TRC (pl v ++ pl h ++ [r0; r1]) [] (trc_facets v h r0 r1)) /\
+  (forall c a mb, a <> (0, 0, 0) -> mb < 0 ->
+     W ELL (pl c ++ pl a ++ [mb]) [] (ell_axis_facets c a mb)) /\
+  (forall f1 f2 L, 0 < L -> vsub f1 (vmul (1 / 2) (vadd f1 f2)) <> (0, 0, 0) ->
+     norm (vsub f1 (vmul (1 / 2) (vadd f1 f2))) <> 2 * L ->
+     W ELL (pl f1 ++ pl f2 ++ [L]) [] (ell_foci_facets f1 f2 L)) /\
+  (forall v a bb h, wed_admissible a bb h ->
+     W WED (pl v ++ pl a ++ pl bb ++ pl h) [] (wed_facets v a bb h)) /\
+  (forall V descr, List.length V = 8%nat -> List.length descr = 6%nat ->
+     (1 <= arb_nvert descr <= 8)%nat ->
+     Forall (facet_admissible (firstn (arb_nvert descr) V)
+                              (centroid_of (firstn (arb_nvert descr) V)))
+            (arb_facet_lists descr) ->
+     W ARB (flat V) descr (arb_facets (firstn (arb_nvert descr) V) (arb_facet_lists descr))).
+Proof. exact written_linked_family. Qed.
+
+(* abbreviated matrices: what C04 proves about normalize_matrix and adjust_matrix
+   composes to the card level (tr_card), e.g. for a card with two rows given *)
+Theorem C03_abbreviated_card_linked : forall (o : S4.R3) (pat : V4.M3 (option R)) (b : V4.M3 R),
+  M4.normalize_matrix RS (V4.mlist pat) = M4.Ok (V4.mlist b) ->
+  S4.rows_orthonormal b -> T4V.C04.ProofsMatrix.clip_ok_m b ->
+  M4.tr_card RS false (map Some (V4.vlist o) ++ V4.mlist pat) = M4.Ok (V4.vlist o ++ V4.mlist b).
+Proof. exact abbreviated_card. Qed.
+
+Theorem C03_six_entry_card_linked : forall (i : nat) (o r0 r1 : S4.R3),
+  (i < 3)%nat -> S4.norm2 r0 = 1 -> S4.norm2 r1 = 1 -> S4.dot r0 r1 = 0 ->
+  let pat := M4.place3 i T4V.C04.ProofsMatrix.none3 (T4V.C04.ProofsMatrix.somev r0)
+                       (T4V.C04.ProofsMatrix.somev r1) in
+  exists b, S4.rotation b /\ S4.agrees pat b /\
+    (T4V.C04.ProofsMatrix.clip_ok_m b -> card_gives (V4.vlist o ++ V4.mlist b) o b).
+Proof. exact six_entry_card. Qed.
+
+(* TRCL=n: the cell is moved by the transformation of card n (C04_inline_number) *)
+Theorem C03_trcl_by_number_linked : forall (l : list R) (o : S4.R3) (b : V4.M3 R) star (n : R)
+    trs trid,
+  card_gives l o b -> M4.lookup trid trs = M4.Ok l ->
+  M4.parse_trcl RS star [n] trs trid = M4.Ok l.
+Proof. exact trcl_by_number_linked. Qed.
+
+(* the whole property text, the transformation read from a card *)
+Theorem C03_expand_macro_den_written_linked : forall (l : list R) (o : S4.R3) (b : V4.M3 R)
+    (bd : body) (p : list R) (d : list N) (fs : list (pt -> R)),
+  card_gives l o b -> fs <> [] ->
+  (exists es, body_parts RS bd p d = Ok es /\ Forall entry_wf es /\ Forall2 same_facet es fs) ->
+  forall ts, body_t4 RS (transf_of_list l) bd p d = Ok ts ->
+  forall (ns : list Z) (fv : Z -> R) (q : pt) (new_key n : Z),
+  numbered_t4 fv q ts ns ->
+  ((n < 0)%Z -> exists t k, expand new_key n None (ids_of_t4 ts ns) = Ok (t, k) /\
+                            (den fv t <-> inside_of fs (aux_c04 o b q))) /\
+  ((0 < n)%Z -> exists t k, expand new_key n None (ids_of_t4 ts ns) = Ok (t, k) /\
+                            (den fv t <-> outside_of fs (aux_c04 o b q))) /\
+  (forall k f, nth_error fs k = Some f -> n <> 0%Z ->
+     exists t, expand new_key n (Some (S k)) (ids_of_t4 ts ns) = Ok (t, new_key) /\
+               (den fv t <-> if (0 <? n)%Z then 0 < f (aux_c04 o b q) else f (aux_c04 o b q) < 0)) /\
+  (forall k, (List.length fs < k)%nat ->
+     expand new_key n (Some k) (ids_of_t4 ts ns) = Err ECellConv).
+Proof. exact reference_written_linked. Qed.
 
 (* ---------------- non-vacuity ---------------- *)
 (* the left-handed wedge of DESIGN 8 #20 (a, b swapped) and a left-handed box
@@ -593,3 +656,46 @@ Qed.
 Example C03_example_transformation :
   orthogonal ((1, -2, 1 / 2), (3 / 5, 4 / 5, 0), (- 4 / 5, 3 / 5, 0), (0, 0, 1)).
 Proof. unfold orthogonal. repeat split; field. Qed.
+
+(* ================================================================== *)
+(* Families: the conjunction of the theorems above, grouped, so that    *)
+(* one Print Assumptions audits each group (the statement of a family   *)
+(* is literally the conjunction of the statements of its members).      *)
+(* ================================================================== *)
+(* every body: the k-th entry is MCNP's k-th facet, outward positive; facet descriptors *)
+Theorem C03_family_facets :
+  ltac:(let t := type of (conj C03_box_facet_k (conj C03_rpp_facet_k (conj C03_sph_facet_k (conj C03_rcc_facet_k (conj C03_rhp15_facet_k (conj C03_rhp9_facet_k (conj C03_rhp9_regular (conj C03_hex_is_rhp (conj C03_rec12_facet_k (conj C03_rec10_facet_k (conj C03_trc_facet_k (conj C03_ell_axis_facet_k (conj C03_ell_foci_facet_k (conj C03_wed_facet_k (conj C03_arb_facet_k (conj C03_arb_centroid_inside (conj C03_parse_facet_digits (conj C03_box_general_facet_k C03_para_facets_right)))))))))))))))))) in exact t).
+Proof. exact (conj C03_box_facet_k (conj C03_rpp_facet_k (conj C03_sph_facet_k (conj C03_rcc_facet_k (conj C03_rhp15_facet_k (conj C03_rhp9_facet_k (conj C03_rhp9_regular (conj C03_hex_is_rhp (conj C03_rec12_facet_k (conj C03_rec10_facet_k (conj C03_trc_facet_k (conj C03_ell_axis_facet_k (conj C03_ell_foci_facet_k (conj C03_wed_facet_k (conj C03_arb_facet_k (conj C03_arb_centroid_inside (conj C03_parse_facet_digits (conj C03_box_general_facet_k C03_para_facets_right)))))))))))))))))). Qed.
+Print Assumptions C03_family_facets.
+
+(* every body: -b is the solid, +b its complement *)
+Theorem C03_family_inside :
+  ltac:(let t := type of (conj C03_box_inside (conj C03_box_general_inside (conj C03_rpp_inside (conj C03_sph_inside (conj C03_rcc_inside (conj C03_rhp15_inside (conj C03_rhp9_inside (conj C03_rec12_inside (conj C03_rec10_inside (conj C03_rec12_solid (conj C03_rec10_solid (conj C03_trc_inside (conj C03_trc_solid (conj C03_ell_axis_inside (conj C03_ell_foci_inside (conj C03_wed_inside C03_arb_inside)))))))))))))))) in exact t).
+Proof. exact (conj C03_box_inside (conj C03_box_general_inside (conj C03_rpp_inside (conj C03_sph_inside (conj C03_rcc_inside (conj C03_rhp15_inside (conj C03_rhp9_inside (conj C03_rec12_inside (conj C03_rec10_inside (conj C03_rec12_solid (conj C03_rec10_solid (conj C03_trc_inside (conj C03_trc_solid (conj C03_ell_axis_inside (conj C03_ell_foci_inside (conj C03_wed_inside C03_arb_inside)))))))))))))))). Qed.
+Print Assumptions C03_family_inside.
+
+(* every body: the written TRIPOLI-4 surfaces, also under a transformation; references over them *)
+Theorem C03_family_written :
+  ltac:(let t := type of (conj C03_convert_entry_sound (conj C03_written_inside (conj C03_box_written (conj C03_rpp_written (conj C03_sph_written (conj C03_rcc_written (conj C03_rhp15_written (conj C03_rhp9_written (conj C03_rec12_written (conj C03_rec10_written (conj C03_trc_written (conj C03_ell_axis_written (conj C03_ell_foci_written (conj C03_wed_written (conj C03_arb_written (conj C03_box_written_solid (conj C03_wed_written_solid (conj C03_box_general_written C03_expand_macro_den_written)))))))))))))))))) in exact t).
+Proof. exact (conj C03_convert_entry_sound (conj C03_written_inside (conj C03_box_written (conj C03_rpp_written (conj C03_sph_written (conj C03_rcc_written (conj C03_rhp15_written (conj C03_rhp9_written (conj C03_rec12_written (conj C03_rec10_written (conj C03_trc_written (conj C03_ell_axis_written (conj C03_ell_foci_written (conj C03_wed_written (conj C03_arb_written (conj C03_box_written_solid (conj C03_wed_written_solid (conj C03_box_general_written C03_expand_macro_den_written)))))))))))))))))). Qed.
+Print Assumptions C03_family_written.
+
+(* sides, numbering, pot_expand_surfs, pot_transform, error branches *)
+Theorem C03_family_references :
+  ltac:(let t := type of (conj C03_wrong_count_rejected (conj C03_arb_wrong_descriptor_count (conj C03_trc_equal_radii_error (conj C03_sides_pm1 (conj C03_number_one (conj C03_number_items_distinct (conj C03_expand_macro_den (conj C03_expand_facet_zero_is_last (conj C03_pot_transform_facet (conj C03_pot_transform_whole C03_pot_transform_out_of_range)))))))))) in exact t).
+Proof. exact (conj C03_wrong_count_rejected (conj C03_arb_wrong_descriptor_count (conj C03_trc_equal_radii_error (conj C03_sides_pm1 (conj C03_number_one (conj C03_number_items_distinct (conj C03_expand_macro_den (conj C03_expand_facet_zero_is_last (conj C03_pot_transform_facet (conj C03_pot_transform_whole C03_pot_transform_out_of_range)))))))))). Qed.
+Print Assumptions C03_family_references.
+
+(* transformation taken from a well-formed TR card / inline transformation (C04) *)
+Theorem C03_family_linked :
+  ltac:(let t := type of (conj C03_card_transformation_linked (conj C03_written_linked (conj C03_bodies_written_linked (conj C03_abbreviated_card_linked (conj C03_six_entry_card_linked (conj C03_trcl_by_number_linked C03_expand_macro_den_written_linked)))))) in exact t).
+Proof. exact (conj C03_card_transformation_linked (conj C03_written_linked (conj C03_bodies_written_linked (conj C03_abbreviated_card_linked (conj C03_six_entry_card_linked (conj C03_trcl_by_number_linked C03_expand_macro_den_written_linked)))))). Qed.
+Print Assumptions C03_family_linked.
+
+
+(* a card satisfying card_gives:  TR  1 -2 0.5   0.6 0.8 0  -0.8 0.6 0  0 0 1 *)
+Example C03_example_card :
+  let o := V4.mkV 1 (-2) (1 / 2) in
+  let b := V4.mkV (V4.mkV (3 / 5) (4 / 5) 0) (V4.mkV (- 4 / 5) (3 / 5) 0) (V4.mkV 0 0 1) in
+  card_gives (V4.vlist o ++ V4.mlist b) o b.
+Proof. exact card_gives_example. Qed.
